@@ -75,7 +75,30 @@ func evalPlain(ip *interp.Interp, src string, env *object.Env) (ins string, errs
 type c20prog struct{ src, want string }
 
 func c20program(rng *rand.Rand, u string) c20prog {
-	switch rng.Intn(16) {
+	switch rng.Intn(20) {
+	case 16, 17:
+		// names, keys and strs longer than any table threshold one might think of (130 … 600 bytes)
+		long := strings.Repeat("l", 130+rng.Intn(470)) + "_" + u
+		switch rng.Intn(3) {
+		case 0:
+			return c20prog{fmt.Sprintf("%s := 3; {%s: %s}.%s + 1", long, long, long, long), "4"}
+		case 1:
+			return c20prog{fmt.Sprintf("%%{\"%s\": 5}[\"%s\"] if \"%s\" == \"%s\"", long, long, long, long), "5"}
+		default:
+			return c20prog{fmt.Sprintf("`{\"%s\": 6}`.decJSON.keys[0].len", long), fmt.Sprint(len(long))}
+		}
+	case 18, 19:
+		// regex-backed Str props with patterns the process has not compiled before
+		switch rng.Intn(4) {
+		case 0:
+			return c20prog{fmt.Sprintf("\"  userName-%s  \".trim.sub(\"-%s$\", \"\").snake", u, u), `"user_name"`}
+		case 1:
+			return c20prog{fmt.Sprintf("\"a%sb%sc\" / \"%s\"", u, u, u), `["a", "b", "c"]`}
+		case 2:
+			return c20prog{fmt.Sprintf("\"x-%s-y\".match(`x-(%s)-y`)[1]", u, u), fmt.Sprintf(`"%s"`, u)}
+		default:
+			return c20prog{fmt.Sprintf("\"%s%s\".sub(`(%s)+`, \"z\")", u, u, u), `"z"`}
+		}
 	case 11, 12:
 		// calls with many positional arguments (\N of arities the process may not have seen yet)
 		k := 10 + rng.Intn(70)
